@@ -538,3 +538,98 @@ def c13_q1(ctx):
             yield ok("C13-Q1", "process_request:response-names", at(f, s["span"]["line"]), "first/second filename copied from the request")
         else:
             yield bad("C13-Q1", "process_request:response-names", at(f, s["span"]["line"]), "response names: %s / %s" % (expr_str(fl.get("first_filename", ("other",))), expr_str(fl.get("second_filename", ("other",)))))
+
+
+# ================================================================ C09-G3 / G4
+@rule("C09", "C09-G3", 1, "a gap whose end is the window bound is reported only under `start of gap < window end` (no list invariant can order the pointer against a free parameter)", also=("C08",))
+def c09_g3(ctx):
+    from common import simp, sstr
+
+    f = ctx.one("C09-G3", "segments::Segments::gaps")
+    params = {vn: l for vn, l, pj in f.var_places if not pj and 2 <= l <= f.arg_count}
+    if len(params) != 2:
+        raise Anchor("C09-G3", "Segments::gaps(start, end) parameters")
+    names = sorted(params, key=lambda k: params[k])
+    p_start, p_end = names[0], names[1]
+
+    def track(key):
+        return key[0] == "expr" and re.match(r"^(Lt|Gt|Le|Ge)\(", key[1]) is not None
+
+    fl = Flow(ctx.prog, ctx.mods, f, track, user_stop=True)
+    eb = ExprBuilder(ctx.prog, f, user_stop=True)
+    n = 0
+    cnt = {}
+    for b, t in f.all_calls():
+        d, r, _ = ctx.prog.callee_of(t)
+        if not (r or d or "").endswith("Vec::push"):
+            continue
+        e = simp(eb.call(b, t))
+        tup = e[3][1] if len(e[3]) > 1 else None
+        if tup is None or tup[0] != "agg" or len(tup[5]) != 2:
+            continue
+        a, z = expr_str(tup[5][0]), expr_str(tup[5][1])
+        if z != p_end:
+            continue  # both ends come from the list: ordered by the sorted-disjoint invariant (not decided)
+        n += 1
+        base = "Segments::gaps:push(%s, %s)" % (a, z)
+        cnt[base] = cnt.get(base, 0) + 1
+        key = base + ("#%d" % cnt[base] if cnt[base] > 1 else "")
+        worlds = fl.at_term(b)
+        want_true = ("Lt(%s, %s)" % (a, z), "Gt(%s, %s)" % (z, a))
+        want_false = ("Ge(%s, %s)" % (a, z), "Le(%s, %s)" % (z, a))
+
+        def guard(dw):
+            for k, (pos, s) in dw.items():
+                if k[0] != "expr":
+                    continue
+                if k[1] in want_true and pos and s == frozenset([1]):
+                    return True
+                if k[1] in want_false and pos and s == frozenset([0]):
+                    return True
+            return False
+
+        good, w = all_worlds_satisfy(worlds, guard)
+        if good and worlds:
+            yield ok("C09-G3", key, at(f, t["span"]["line"]), "under %s < %s" % (a, z))
+        else:
+            yield bad("C09-G3", key, at(f, t["span"]["line"]), "the gap (%s, %s) is reported without a test %s < %s on the path: when the window ends inside held data the range is inverted or empty (state %s)" % (a, z, a, z, world_str(w) if w is not None else "unreachable"))
+    if n == 0:
+        raise Anchor("C09-G3", "gap pushes bounded by the window end in Segments::gaps")
+
+
+SEG_MUTATORS_OK = ("push", "insert", "remove", "index_mut", "last_mut", "first_mut", "get_mut", "deref_mut", "as_mut_slice")
+SEG_READERS = ("len", "is_empty", "last", "first", "get", "iter", "as_slice", "binary_search_by", "binary_search", "binary_search_by_key", "index", "deref", "partition_point", "windows")
+
+
+@rule("C09", "C09-G4", 3, "the held-range list is edited only by order-preserving operations (insert at the searched position, push at the end, remove, in-place edits of one range)")
+def c09_g4(ctx):
+    fns = [f for f in ctx.prog.by_norm.values() if f.crate == "cfdp_daemon" and "::segments::" in f.norm and "::test" not in f.norm]
+    n = 0
+    cnt = {}
+    for f in fns:
+        eb = ExprBuilder(ctx.prog, f, inline=False)
+        for b, t in f.all_calls():
+            e = eb.call(b, t)
+            if not e[3]:
+                continue
+            a0 = e[3][0]
+            if not (a0[0] == "ref" and a0[1]):
+                continue
+            ty = ""
+            if t["args"] and t["args"][0].get("k") in ("move", "copy"):
+                ty = t["args"][0]["place"]["ty"]
+            if "Vec<(u64, u64)>" not in ty:
+                continue
+            last = (callee_name(e) or "").split("::")[-1]
+            if last in SEG_READERS or (callee_name(e) or "") in ctx.prog.by_norm:
+                continue  # readers; local helpers are examined in their own body
+            n += 1
+            base = "%s:%s" % (short(f.norm), last)
+            cnt[base] = cnt.get(base, 0) + 1
+            key = base + ("#%d" % cnt[base] if cnt[base] > 1 else "")
+            if last in SEG_MUTATORS_OK:
+                yield ok("C09-G4", key, at(f, t["span"]["line"]), "order-preserving edit")
+            else:
+                yield bad("C09-G4", key, at(f, t["span"]["line"]), "the sorted range list is edited by %s, which does not preserve its order: the binary searches and the coalescing loop rely on it" % last)
+    if n == 0:
+        raise Anchor("C09-G4", "mutators of the range list")
